@@ -442,7 +442,7 @@ pub fn run(args: &[String]) {
         } else if !thorough && si >= 3 {
             continue;
         }
-        if len > max {
+        if len > max && arg(args, "--observer").is_none() {
             let mut k = 0;
             loop {
                 n += 1;
@@ -460,7 +460,11 @@ pub fn run(args: &[String]) {
         for natt in [0usize, 1] {
             for survivor in [false, true] {
                 for obs in [Observer::Recv, Observer::TryRecv, Observer::Select] {
-                    if !thorough && natt == 1 && obs != Observer::Recv {
+                    if let Some(o) = arg(args, "--observer") {
+                        if format!("{:?}", obs).to_lowercase() != o {
+                            continue;
+                        }
+                    } else if !thorough && natt == 1 && obs != Observer::Recv {
                         continue;
                     }
                     let mut k = 0;
